@@ -11,3 +11,5 @@ open UtilModel UtilModel.Routine
 #print axioms UtilModel.Routine.C05a_obs
 #print axioms UtilModel.Routine.exited_cancelled
 #print axioms UtilModel.Routine.C05b_obs
+#print axioms UtilModel.Routine.C05c_obs
+#print axioms UtilModel.Routine.C05l_obs
